@@ -111,8 +111,9 @@ RenderAlt(name, named, fields) ==
     ELSE <<name \o (IF named THEN " {" ELSE "(")>> \o AltFieldLines(named, fields, 1) \o <<IF named THEN "}" ELSE ")">>
 
 \* the documented plan: transparent field -> that field alone; else the non-ignored fields
-DebugShown(fields) == SelectSeq(fields, LAMBDA f : f.dbg # "ignore")
-DebugTransparent(fields) == SelectSeq(fields, LAMBDA f : f.dbg = "transparent")
+\* f.dbg: "none" | "ignore" | "transparent" | "both" (#[debug(transparent, ignore)]: transparent is unconditional in the doc)
+DebugShown(fields) == SelectSeq(fields, LAMBDA f : f.dbg \notin {"ignore", "both"})
+DebugTransparent(fields) == SelectSeq(fields, LAMBDA f : f.dbg \in {"transparent", "both"})
 DebugRejected(fields) == Len(DebugTransparent(fields)) > 1
 
 (***************************************************************************)
@@ -120,12 +121,13 @@ DebugRejected(fields) == Len(DebugTransparent(fields)) > 1
 (*   kinds of #[default(e)] expressions and what the field must record:    *)
 (***************************************************************************)
 \* Into is applied exactly for a string literal or a path
-NeedsInto(kind) == kind \in {"str", "path", "assoc_path"}
+NeedsInto(kind) == kind \in {"str", "path", "assoc_path", "into_path"}
 FieldDefault(f) ==
     CASE f.dv = "none"       -> "default()"          \* no attribute, or #[default(_)] / #[default]
       [] f.dv = "str"        -> "from_str:abc"       \* #[default("abc")]            -> Into
       [] f.dv = "path"       -> "from_src:7"         \* #[default(SRC7)] (a Src)     -> Into
       [] f.dv = "assoc_path" -> "from_src:3"         \* #[default(Holder::SRC3)]     -> Into
+      [] f.dv = "into_path"  -> "into_srci:8"        \* #[default(SRCI8)]: a type with a hand-written Into<Field> only (no From)
       [] f.dv = "call"       -> "call:5"             \* #[default(mk(5))]            as is
       [] f.dv = "block"      -> "call:6"             \* #[default({ mk(6) })]        as is
       [] f.dv = "method"     -> "call:4"             \* #[default(mk(4).same())]     as is
